@@ -319,3 +319,22 @@ obligation('C05-f', 'T1 T11 T8', 'a saved / reopened pool still holds its stores
 def c05_g(ctx):
     from .base import zero_is_valid_obligation
     zero_is_valid_obligation(ctx, ['batch_index', 'seed'])
+
+
+# An ArrayPool keeps its batches in on-disk array stores: what the store reports after append /
+# read / append sequences, and which writes it accepts, decide what a reused pool hands out.
+@obligation('C05-h', 'T1 T2', 'the on-disk array behind a pool store reports what was appended '
+            '(file-effect automaton, shared with C06-a)', floor=10,
+            necessary='a stale memory map after an append makes an open pool hand out empty '
+                      'batches: reuse no longer equals the run without a pool')
+def c05_h(ctx):
+    from . import C06 as _C06
+    return _C06.c06_a(ctx)
+
+
+@obligation('C05-i', 'T5 T6 T11', 'the array store accepts the batch that exactly fills it and '
+            'counts batches once (shared with C06-i)', floor=9,
+            necessary='a refused last batch leaves the pool one batch short of the consumed ones')
+def c05_i(ctx):
+    from . import C06 as _C06
+    return _C06.c06_i(ctx)
